@@ -185,3 +185,19 @@ def normalize_ids(s):
         return m.group(1) + mapping[i]
 
     return _ID_RE.sub(sub, s)
+
+
+_known_cache = {}
+
+
+def known_active(prop):
+    """ids of findings listed (status 'known') for `prop` in /verif/known_findings.json (read-only)."""
+    if prop not in _known_cache:
+        path = os.path.join(os.path.dirname(os.path.dirname(os.path.abspath(__file__))), "known_findings.json")
+        try:
+            with open(path) as f:
+                data = json.load(f)
+        except Exception:
+            data = {}
+        _known_cache[prop] = {f["id"] for f in data.get("findings", []) if f.get("property") == prop and f.get("status", "known") == "known"}
+    return _known_cache[prop]
